@@ -67,6 +67,8 @@ def is_entry_expr(sv, depth=0):
         return is_entry_expr(sv[2], depth + 1) and is_entry_expr(sv[3], depth + 1)
     if h == "discr":
         return is_entry_expr(sv[1], depth + 1)
+    if h == "agg":
+        return all(is_entry_expr(x, depth + 1) for x in sv[3])
     return False
 
 
@@ -118,6 +120,11 @@ def translate(sv, caller_it, S, args, argc, leafmap=None, R=None, depth=0):
     if h == "discr":
         x = translate(sv[1], caller_it, S, args, argc, leafmap, R, depth + 1)
         return None if x is None else ("discr", x)
+    if h == "agg":
+        fs = [translate(x, caller_it, S, args, argc, leafmap, R, depth + 1) for x in sv[3]]
+        if any(f is None for f in fs):
+            return None
+        return ("agg", sv[1], sv[2], tuple(fs))
     return None
 
 
